@@ -24,7 +24,7 @@ var referenceCountsJSON []byte
 
 var countedRules = map[string]bool{"LF": true, "TABLE": true, "GF": true, "SYM": true, "COMM": true, "ORDER": true, "FIELDS": true,
 	"SKELETON": true, "PATH": true, "ERRFLOW": true, "FIRST": true, "SIBLING": true, "PAIR": true, "DRAW": true, "SHAPE": true, "LENGTH": true,
-	"TYPESTATE": true, "SLOTS": true, "RESTORE": true, "FRESH": true, "ACCUM": true, "DEP": true, "COUNT": true, "NET": true, "PRESENT": true, "NAMED": true}
+	"TYPESTATE": true, "SLOTS": true, "RESTORE": true, "FRESH": true, "ACCUM": true, "DEP": true, "COUNT": true, "NET": true, "PRESENT": true, "NAMED": true, "WRITES": true}
 
 // slotOf: "RULE/a/b/c" -> "RULE/a/b" (the last element names the instance inside the slot);
 // "RULE/a" stays as it is.
